@@ -269,6 +269,7 @@ func runC17(c *h.Ctx) {
 	defer c17WideRoot(c)
 	defer c17RawBodyComplex(c)
 	defer c17TracebackSubdoc(c)
+	defer c17AbsentBodyMapped(c)
 	defer c17RespOptions(c)
 	c.Run("request", c.N(6000, 200000), func(cs *h.Case) {
 		types := c17Types()
@@ -511,7 +512,8 @@ func runC17(c *h.Ctx) {
 			}
 			data = []byte("{" + strings.Join(ms, ",") + "}")
 		}
-		u := "http://verif.example/root/path"
+		// (percent-encoded bytes in the path: the raw URI is the URI as sent, not a re-spelled one)
+		u := "http://verif.example" + []string{"/root/path", "/root/path", "/root/p%20a/th", "/r%C3%A9/x%2Fy", "/files/a%20b.txt"}[cs.R.Intn(5)]
 		if len(rq.query) > 0 {
 			u += "?" + rq.query.Encode()
 		}
@@ -1687,5 +1689,83 @@ service Svc { Req M(1: Req req) }
 		if o.TracebackRequredOrRootFields && ((!tokInText && tokPlace != "none") || (!ridInText && ridPlace != "none")) {
 			cs.Cover("traceback_subdoc_member_filled_from_request")
 		}
+	})
+}
+
+// c17AbsentBodyMapped: response side, fields absent from the message whose only http annotation has no response side
+// (api.body): under a write option and OmitHttpMappingErrors they are written into the JSON body with their zero
+// value like any other absent field, with or without WriteHttpValueFallback (nothing can be delivered elsewhere);
+// without OmitHttpMappingErrors the undeliverable annotation is an error.
+func c17AbsentBodyMapped(c *h.Ctx) {
+	c.Run("absent-body-mapped", c.N(300, 6000), func(cs *h.Case) {
+		typ := []*gen.Type{{T: tref.I32}, {T: tref.STRING}, {T: tref.BOOL}, {T: tref.LIST, Elem: &gen.Type{T: tref.I64}}, {T: tref.DOUBLE}}[cs.R.Intn(5)]
+		req := []int{gen.ReqDefault, gen.ReqRequired}[cs.R.Intn(2)]
+		st := &gen.StructT{Name: "Resp", Fields: []*gen.FieldT{
+			{ID: 1, Name: "present", T: &gen.Type{T: tref.STRING}, Req: gen.ReqDefault, Annos: []string{`api.header="X-P"`}},
+			{ID: 2, Name: "absentBody", T: typ, Req: req, Annos: []string{`api.body="b2"`}},
+			{ID: 3, Name: "plain", T: &gen.Type{T: tref.I32}, Req: gen.ReqDefault},
+			{ID: 4, Name: "absentPlain", T: typ, Req: req},
+		}}
+		sc := &gen.Schema{Structs: []*gen.StructT{st}, Root: st}
+		desc, _, err := ParseRoot(sc, thrift.NewDefaultOptions())
+		if err != nil {
+			cs.Viol("hm:parse-idl", "err", err)
+			return
+		}
+		msg := tref.Struct(tref.Field{ID: 1, V: tref.Str("hv")}, tref.Field{ID: 3, V: tref.Int32(7)})
+		o := conv.Options{EnableHttpMapping: true, OmitHttpMappingErrors: cs.R.Bool(), WriteHttpValueFallback: cs.R.Bool(), WriteDefaultField: req == gen.ReqDefault, WriteRequireField: req == gen.ReqRequired}
+		cs.Info("idl", sc.IDL())
+		cs.Info("opts", fmt.Sprintf("omit=%v fallback=%v", o.OmitHttpMappingErrors, o.WriteHttpValueFallback))
+		resp := dhttp.NewHTTPResponse()
+		ctx := context.WithValue(context.Background(), conv.CtxKeyHTTPResponse, resp)
+		cv := t2j.NewBinaryConv(o)
+		out, err := cv.Do(ctx, desc, tref.Encode(msg))
+		if !o.OmitHttpMappingErrors {
+			// an annotation that cannot deliver on the response side is an error unless such errors are omitted
+			if err == nil {
+				cs.Viol("hm:absent-body-mapped:undeliverable-accepted", "out", string(out))
+			} else {
+				cs.Cover("absent_body_mapped_rejected_without_omit")
+			}
+			return
+		}
+		if err != nil {
+			cs.Viol("hm:absent-body-mapped:error-on-domain", "err", err)
+			return
+		}
+		j, perr := ParseJSON(out)
+		if perr != nil || j.K != 'o' {
+			cs.Viol("hm:absent-body-mapped:malformed-json", "out", string(out))
+			return
+		}
+		has := map[string]*JV{}
+		for i, k := range j.Keys {
+			has[k] = j.Vals[i]
+		}
+		zero := func(x *JV) bool {
+			if x == nil {
+				return false
+			}
+			switch typ.T {
+			case tref.STRING:
+				return x.K == 's' && x.S == ""
+			case tref.BOOL:
+				return x.String() == "false"
+			case tref.LIST:
+				return x.K == 'a' && len(x.A) == 0
+			default:
+				return x.K == '#' && (x.N == "0" || x.N == "0.0")
+			}
+		}
+		// the plain absent field is the control: both absent fields are owed to the body alike
+		if !zero(has["absentPlain"]) || !zero(has["absentBody"]) {
+			cs.Viol("hm:absent-body-mapped:not-written", "out", string(out), "type", tref.TypeName(typ.T), "required", req == gen.ReqRequired)
+			return
+		}
+		if has["plain"] == nil || resp.Header.Get("X-P") != "hv" {
+			cs.Viol("hm:absent-body-mapped:present-fields", "out", string(out), "header", resp.Header.Get("X-P"))
+			return
+		}
+		cs.Cover("absent_body_mapped_ok")
 	})
 }
